@@ -30,6 +30,7 @@ META = {
     ],
 }
 META['bounds'].append('a table / function converter registered on Length and removed again: 5 unit pairs x 3 converter kinds')
+META['bounds'].append('fourth user program: units sharing a descriptive name, unit-first two-item terms with different exponents, int with exponent 3')
 
 
 def setup(mode):
